@@ -187,7 +187,7 @@ def run(ctx):
             vals = set()
             for p in ps2:
                 for i, e in RM.final_prints(p):
-                    a = e[3][4] if len(e[3]) > 4 else None
+                    a = shared.print_call_args(facts, p.state, e).get("suppress")
                     vals.add(absint.const_of(a) if a is not None else None)
             res[meth] = vals
         okhd = res.get("Head") == {True} and res.get("Get") == {False}
